@@ -381,6 +381,7 @@ func c19Judge(w *fw.W, c *c19Case, o *c19Obs) bool {
 	if exp.Ambiguous != "" {
 		w.Count("ambiguous_skipped", 1)
 		w.Cover("ambiguous_reasons", exp.Ambiguous)
+		w.Count("ambiguous: "+exp.Ambiguous, 1)
 	} else if len(o.raw) != exp.Records {
 		det := fmt.Sprintf("%d record(s) through sink %s, expected %d (effective engine %s, status %d from %s, relevant=%v)", len(o.raw), c.Sink, exp.Records, exp.EffEngine, exp.Status, exp.StatusSource, exp.Relevant)
 		viol(exp.countClass(), "decision-table", c, expJ, o, det)
